@@ -22,8 +22,11 @@ FUNCTIONS = ["wannierberri.data_K.data_K_R.Data_K_R.__init__/E_K_corners_tetra/E
 BOUNDS = dict(quick=dict(num_wann="1..2 (R-space, k.p), 2..4 (spin-orbit = 2 x 1..2)", NKFFT="(1,1,1) (2,1,1) (1,2,2)", R_sets="3..9 R-vectors; spin-up / spin-down / SOC sets equal, "
                          "different with equal size, different with different size", corners="4 tetrahedron vertices (rational and generic doubles), 8 parallelepiped corners", data="symbolic Hermitian Ham(R), Ham_SOC(R); "
                          "k.p: quadratic polynomial in k with symbolic Hermitian coefficients", phonon="num_wann=1, nk=1, tetrahedron: sign(E)sqrt|E| on every sign pattern"),
-              thorough=dict(num_wann="1..3 (R-space, k.p), 2..4 (spin-orbit)", NKFFT="as quick + (2,2,2) (3,1,2)", R_sets="as quick + 15, 27 R-vectors", corners="as quick, 3 K-points each",
-                            data="as quick", phonon="num_wann 1..2 (tetrahedron), 1 (parallelepiped)"))
+              thorough=dict(num_wann="1..5 (R-space), 1..6 (k.p), 2..6 (spin-orbit = 2 x 1..3)", NKFFT="13 boxes from (1,1,1) to (4,3,1), (5,1,2), (1,7,1), (2,2,3), (3,2,2) (up to 12 k-points, prime sizes 5 and 7)",
+                            R_sets="3..33 R-vectors incl. far ones (|R_i| up to 7) and sets with z components; 12 (up, down, SOC) triples of mutually different sets, each on 8 boxes / K-points",
+                            cells="cubic with zero Wannier centres and triclinic with non-zero centres (neither may influence the corner energies)",
+                            corners="8 tetrahedra (cell-spanning, flat sliver with negative coordinates, bisection child, tiny generic, ...) and 8 parallelepipeds (refinement children off the division grid, "
+                            "1:12 anisotropic cell, K outside [0,1)) for every class", data="as quick", phonon="tetrahedron: num_wann 1..2 with nk=1 and num_wann=1 with nk=2 (2^10 sign patterns each); parallelepiped: num_wann=1 (2^9)"))
 EXPLANATION = ("The real Data_K_R / Data_K_soc / Data_K_k constructors and E_K_corners_* run on symbolic Hermitian R-space (or k.p coefficient) matrices with np.linalg.eigvalsh/eigh replaced by a recorder "
                "that logs its argument and returns fresh eigenvalue atoms. z3 decides that every matrix handed to eigvalsh at a corner equals H evaluated directly at k+corner (explicit sum written in the harness, "
                "and the matrices the code's own *_test reference hands to eigh) to 1e-9 for all |data|<=1, and that the returned array holds exactly the eigenvalues of the matching corner.")
@@ -91,12 +94,18 @@ class Grid0(GridAbstract):
         raise NotImplementedError
 
 
+CELLS = {"cubic": (np.eye(3), np.zeros((4, 3))),
+         "tri": (np.array([[1.0, 0.125, 0.0], [-0.5, 0.875, 0.25], [0.0625, -0.1875, 1.5]]), np.array([[0.0, 0.0, 0.0], [0.25, 0.5, 0.125], [0.6, 0.1, 0.3], [-0.35, 0.8, 0.45]]))}
+
+
 class SysR:
     force_internal_terms_only = False
+    cell = "cubic"        # set per case: lattice and Wannier centres (they may not influence the corner energies)
 
     def __init__(s, iR, X, nb, phonon=False):
-        s.rvec = RV.Rvectors(lattice=np.eye(3), iRvec=np.array(iR), shifts_left_red=np.zeros((nb, 3)))
-        s.X, s.num_wann, s.real_lattice, s.is_phonon = dict(Ham=X), nb, np.eye(3), phonon
+        lat, wcc = CELLS[SysR.cell]
+        s.rvec = RV.Rvectors(lattice=lat.copy(), iRvec=np.array(iR), shifts_left_red=wcc[:nb].copy())
+        s.X, s.num_wann, s.real_lattice, s.is_phonon = dict(Ham=X), nb, lat.copy(), phonon
 
     def get_R_mat(s, k):
         return s.X[k]
@@ -111,10 +120,11 @@ class SysSOC:
 
     def __init__(s, up, down=None, soc=None):
         s.system_up, s.system_down, s.nspin = up, (down or up), (1 if down is None else 2)
-        s.num_wann_scalar, s.num_wann, s.real_lattice = up.num_wann, 2 * up.num_wann, np.eye(3)
+        lat, wcc = CELLS[SysR.cell]
+        s.num_wann_scalar, s.num_wann, s.real_lattice = up.num_wann, 2 * up.num_wann, lat.copy()
         s.has_soc, s.rvec, s.X = soc is not None, None, {}
         if soc is not None:
-            s.rvec = RV.Rvectors(lattice=np.eye(3), iRvec=np.array(soc[0]), shifts_left_red=np.zeros((s.num_wann, 3)))
+            s.rvec = RV.Rvectors(lattice=lat.copy(), iRvec=np.array(soc[0]), shifts_left_red=np.repeat(wcc[:up.num_wann], 2, axis=0))
             s.X['Ham_SOC'] = soc[1]
 
     def get_R_mat(s, k):
@@ -151,15 +161,28 @@ RSETS = {
     "xz9": [(i, 0, k) for i in (-1, 0, 1) for k in (-1, 0, 1)],
     "xz15": [(i, 0, k) for i in (-1, 0, 1) for k in (-2, -1, 0, 1, 2)],
     "cube27": [(i, j, k) for i in (-1, 0, 1) for j in (-1, 0, 1) for k in (-1, 0, 1)],
+    # thorough tier only
+    "z5": [(0, 0, k) for k in (-2, -1, 0, 1, 2)],
+    "far9": [(0, 0, 0), (5, 0, 0), (-5, 0, 0), (0, -3, 4), (0, 3, -4), (2, 2, -6), (-2, -2, 6), (1, 0, 7), (-1, 0, -7)],
+    "yz21": [(0, j, k) for j in (-3, -2, -1, 0, 1, 2, 3) for k in (-1, 0, 1)],
+    "ball33": [(i, j, k) for i in range(-2, 3) for j in range(-2, 3) for k in range(-2, 3) if i * i + j * j + k * k <= 4],
 }
 # K-points: (kind, arguments of the real K-point class)
 VERT = [np.array([[0, 0, 0], [0.5, 0, 0], [0, 0.5, 0], [0, 0, 0.5]]) * 0.5,
         np.array([[0.1, 0.0, 0.3], [0.37, 0.05, 0.0], [0.0, 0.21, 0.11], [0.13, 0.4, 0.45]]),
         np.array([[0, 0, 0], [0.25, 0.25, 0], [0, 0.25, 0.25], [0.25, 0, 0.25]]),
-        np.array([[0.1, 0.0, 0.3], [0.37, 0.05, 0.0], [0.0, 0.21, 0.11], [0.13, 0.4, 0.45]])]
-KTET = [np.array([0.25, 0.0, 0.0]), np.array([0.0, 0.0, 0.0]), np.array([0.5, 0.125, 0.3]), np.array([0.3, 0.13, 0.17])]
-KPAR = [(np.array([1, 0, 2]), np.array([2, 1, 3])), (np.array([0, 0, 0]), np.array([1, 1, 1])), (np.array([3, 1, 0]), np.array([4, 3, 1])), (np.array([0.6, 0.2, 0.7]), np.array([2, 3, 4]))]
-# entry 3 of both lists is generic (keeps every corner of the k.p cases away from the boundary of the k.p box)
+        np.array([[0.1, 0.0, 0.3], [0.37, 0.05, 0.0], [0.0, 0.21, 0.11], [0.13, 0.4, 0.45]]),
+        # thorough tier only: a tetrahedron spanning the whole cell, a flat sliver with negative coordinates, a child of a bisected tetrahedron, a tiny generic one
+        np.array([[0, 0, 0], [1, 0, 0], [1, 1, 0], [1, 1, 1.]]),
+        np.array([[-0.3, 0.2, 0.0], [0.45, 0.21, 0.001], [0.1, -0.4, 0.002], [0.2, 0.25, -0.001]]),
+        np.array([[0.5, 0, 0], [0.5, 0.5, 0], [0.0, 0.0, 0.0], [0.25, 0.25, 0.25]]),
+        np.array([[0.01, 0.0, 0.03], [0.037, 0.005, 0.0], [0.0, 0.021, 0.011], [0.013, 0.04, 0.045]])]
+KTET = [np.array([0.25, 0.0, 0.0]), np.array([0.0, 0.0, 0.0]), np.array([0.5, 0.125, 0.3]), np.array([0.3, 0.13, 0.17]),
+        np.array([0.0, 0.0, 0.0]), np.array([1.3, -0.7, 0.45]), np.array([0.0, 1.0, 0.0]), np.array([0.21, 0.33, 0.12])]
+KPAR = [(np.array([1, 0, 2]), np.array([2, 1, 3])), (np.array([0, 0, 0]), np.array([1, 1, 1])), (np.array([3, 1, 0]), np.array([4, 3, 1])), (np.array([0.6, 0.2, 0.7]), np.array([2, 3, 4])),
+        # thorough tier only: children of refined cells (K off the division grid, small dK), a very anisotropic cell, a K-point outside [0,1)
+        (np.array([2.5, 0.5, 5.5]), np.array([4, 2, 6])), (np.array([1.25, 2.75, 0.25]), np.array([8, 4, 2])), (np.array([0, 3, 1]), np.array([1, 12, 2])), (np.array([-1.3, 7.1, 0.4]), np.array([5, 6, 3]))]
+# entries 3 and 7 of both lists are generic (they keep every corner of the k.p cases away from the boundary of the k.p box)
 
 
 def mk_kpoint(kind, ik, NKFFT):
@@ -258,13 +281,14 @@ def _check_own_test(rec, lin, dk, kind, calls, who):
 
 
 # ------------------------------------------------------------------------------------------------------------
-def case_R(rec, rset, nb, NKFFT, kind, ik):
+def case_R(rec, rset, nb, NKFFT, kind, ik, cell="cubic"):
+    SysR.cell = cell
     lin = RecLinalg()
     _shadow(lin)
     iR = RSETS[rset]
     X = hermR("H", iR, nb)
     shifts, dK = corner_shifts(kind, ik, NKFFT)
-    par = dict(cls="R", rset=rset, nb=nb, NKFFT=list(NKFFT), kind=kind, ik=ik)
+    par = dict(cls="R", rset=rset, nb=nb, NKFFT=list(NKFFT), kind=kind, ik=ik, cell=cell)
 
     def body(rec):
         rec.witness = lambda env: dict(H=env.arr(X), **par)
@@ -289,14 +313,15 @@ def _soc_want(iRu, Xu, iRd, Xd, soc, kpts, nws):
     return H.view(SymArray)
 
 
-def case_soc(rec, up, down, soc, nws, NKFFT, kind, ik):
+def case_soc(rec, up, down, soc, nws, NKFFT, kind, ik, cell="cubic"):
+    SysR.cell = cell
     lin = RecLinalg()
     _shadow(lin)
     Xu = hermR("Hu", RSETS[up], nws)
     Xd = hermR("Hd", RSETS[down], nws) if down else None
     Xs = hermR("Hs", RSETS[soc], 2 * nws) if soc else None
     shifts, dK = corner_shifts(kind, ik, NKFFT)
-    par = dict(cls="soc", up=up, down=down, soc=soc, nb=nws, NKFFT=list(NKFFT), kind=kind, ik=ik)
+    par = dict(cls="soc", up=up, down=down, soc=soc, nb=nws, NKFFT=list(NKFFT), kind=kind, ik=ik, cell=cell)
 
     def body(rec):
         rec.witness = lambda env: dict(Hu=env.arr(Xu), Hd=env.arr(Xd) if down else None, Hs=env.arr(Xs) if soc else None, **par)
@@ -335,14 +360,14 @@ def case_kp(rec, nb, NKFFT, kind, ik):
     rec.explore(body)
 
 
-def case_phonon(rec, nb, kind):
+def case_phonon(rec, nb, kind, rset="x3", NKFFT=(1, 1, 1), cell="cubic"):
     """is_phonon: the corner routine returns sign(w2) sqrt|w2| of the eigenvalues of the corner matrices (all sign patterns)"""
+    SysR.cell = cell
     lin = RecLinalg()
     _shadow(lin)
-    iR = RSETS["x3"]
+    iR = RSETS[rset]
     X = hermR("H", iR, nb)
-    NKFFT = (1, 1, 1)
-    par = dict(cls="phonon", rset="x3", nb=nb, NKFFT=list(NKFFT), kind=kind, ik=0)
+    par = dict(cls="phonon", rset=rset, nb=nb, NKFFT=list(NKFFT), kind=kind, ik=0, cell=cell)
 
     def body(rec):
         rec.witness = lambda env: dict(H=env.arr(X), **par)
@@ -353,13 +378,18 @@ def case_phonon(rec, nb, kind):
         nc = 4 if kind == "tetra" else 8
         evs = [E for tag, H, E in lin.log if tag == "eigvalsh"]
         rec.concrete("phonon: one eigvalsh per corner", len(evs) == nc, key=f"phonon {kind}: number of eigvalsh calls")
-        got = out.reshape(1, nc, nb)
+        nk = int(np.prod(NKFFT))
+        rec.concrete("phonon: returned size", out.size == nk * nc * nb, key=f"phonon {kind}: returned shape")
+        if len(evs) != nc or out.size != nk * nc * nb:
+            return
+        got = out.reshape(nk, nc, nb)
         for ic in range(nc):
-            for b in range(nb):
-                w2, w = evs[ic][0, b], SymC.of(got[0, ic, b])
-                neg = bool(w2 < 0)
-                rec.eq("phonon corner frequency squared == |eigenvalue|", w * w, -w2 if neg else w2, key=f"phonon {kind}: corner frequency is not sqrt|w2|")
-                rec.fact("phonon corner frequency has the sign of the eigenvalue", (w <= 0) if neg else (w >= 0), key=f"phonon {kind}: corner frequency sign")
+            for ik in range(nk):
+                for b in range(nb):
+                    w2, w = evs[ic][ik, b], SymC.of(got[ik, ic, b])
+                    neg = bool(w2 < 0)
+                    rec.eq("phonon corner frequency squared == |eigenvalue|", w * w, -w2 if neg else w2, key=f"phonon {kind}: corner frequency is not sqrt|w2|")
+                    rec.fact("phonon corner frequency has the sign of the eigenvalue", (w <= 0) if neg else (w >= 0), key=f"phonon {kind}: corner frequency sign")
     rec.explore(body)
 
 
@@ -367,7 +397,7 @@ def cases(tier, seed):
     q = tier == "quick"
     out = []
     def add(fn, **kw):
-        out.append(Case(fn.__name__[5:] + " " + " ".join(f"{k}={v}" for k, v in kw.items()), fn, kw, timeout=1500))
+        out.append(Case(fn.__name__[5:] + " " + " ".join(f"{k}={v}" for k, v in kw.items()), fn, kw, timeout=1500 if q else 3400))
     kinds = ("tetra", "parallel")
     for kind in kinds:
         for rset, nb, NK, ik in [("x3", 1, (2, 1, 1), 0), ("xyz7", 2, (1, 1, 1), 1), ("xz9", 2, (1, 2, 2), 2), ("xy5", 2, (2, 1, 1), 1)] + \
@@ -387,7 +417,34 @@ def cases(tier, seed):
             add(case_phonon, nb=1, kind=kind)      # parallel: 2^9 sign patterns, thorough only
     if not q:
         add(case_phonon, nb=2, kind="tetra")
+        _deep_cases(add)
     return out
+
+
+def _deep_cases(add):
+    """thorough tier: larger / far R-sets with z components, non-cubic cell with non-zero Wannier centres, more FFT boxes, eight K-point shapes per kind, up to 4 bands"""
+    boxes = [(3, 1, 2), (2, 2, 2), (1, 3, 1), (5, 1, 1), (2, 3, 1), (1, 1, 4), (2, 1, 1), (1, 2, 2), (3, 2, 2), (4, 3, 1), (5, 1, 2), (1, 7, 1), (2, 2, 3)]
+    n = 0
+    for kind in ("tetra", "parallel"):
+        for ik in range(8):                                                     # every K-point shape, R-space class
+            for j, (rset, nb) in enumerate([("far9", 2), ("ball33", 2), ("yz21", 3), ("xz15", 4), ("z5", 1), ("cube27", 3), ("xyz7", 5)]):
+                add(case_R, rset=rset, nb=nb, NKFFT=boxes[(3 * ik + j) % len(boxes)], kind=kind, ik=ik, cell="tri" if (ik + j) % 3 else "cubic")
+        # spin-orbit: (up, down, soc) R-sets all different, with z components; 1 or 2 orbitals per spin
+        trip = [("far9", "yz21", None), ("yz21", "far9", "ball33"), ("z5", "xyz7", "far9"), ("ball33", "xz15", "z5"), ("xz15", None, "far9"), ("cube27", "ball33", None),
+                ("xyz7", "z5", "yz21"), ("far9", "far9", "xz9"), ("y3", "z5", "x3"), ("ball33", None, None), ("z5", "far9", "cube27"), ("xy5", "yz21", "xz15")]
+        for it, (up, down, soc) in enumerate(trip):
+            for rep in range(8):
+                ik = (it + 3 * rep) % 8
+                nws = (2 if len(RSETS[up]) <= 21 else 1) if (it + rep) % 3 == 0 else (3 if (it + rep) % 7 == 1 and len(RSETS[up]) <= 9 else 1)
+                add(case_soc, up=up, down=down, soc=soc, nws=nws, NKFFT=boxes[(it + 2 * rep) % len(boxes)], kind=kind, ik=ik, cell="tri" if (it + rep) % 2 else "cubic")
+        for nb, NK, ik in [(3, (5, 1, 1), 3), (4, (1, 3, 1), 3), (4, (2, 1, 1), 7), (2, (2, 3, 1), 7), (1, (1, 1, 4), 7), (3, (1, 2, 2), 7), (2, (3, 1, 2), 7), (1, (2, 2, 2), 3),
+                           (5, (2, 1, 1), 3), (6, (1, 1, 1), 7), (2, (3, 2, 2), 7), (3, (1, 7, 1), 3), (2, (5, 1, 2), 3), (4, (2, 2, 3), 7)]:
+            add(case_kp, nb=nb, NKFFT=NK, kind=kind, ik=ik)
+    add(case_phonon, nb=1, kind="tetra", rset="xyz7", NKFFT=(2, 1, 1), cell="tri")      # nk = 2: 2^10 sign patterns
+    add(case_phonon, nb=1, kind="tetra", rset="far9", NKFFT=(1, 1, 1), cell="tri")
+    add(case_phonon, nb=1, kind="parallel", rset="z5", NKFFT=(1, 1, 1), cell="tri")
+    add(case_phonon, nb=2, kind="tetra", rset="far9", NKFFT=(1, 1, 1), cell="tri")
+    add(case_phonon, nb=1, kind="tetra", rset="yz21", NKFFT=(1, 2, 1), cell="cubic")
 
 
 # ------------------------------------------------------------------------------------------------------------
@@ -396,6 +453,7 @@ def replay(rec):
     from symx.harness import unarr
     w = rec["witness"]
     kind, ik, NKFFT, nb = w["kind"], w["ik"], tuple(w["NKFFT"]), w["nb"]
+    SysR.cell = w.get("cell", "cubic")
     shifts, dK = corner_shifts(kind, ik, NKFFT)
     Kp = mk_kpoint(kind, ik, NKFFT)
     c = lambda a: unarr(a).astype(complex)
